@@ -106,6 +106,7 @@ def run_check(prop, repo, tier, jobs, seed, out=sys.stdout):
         'repository_functions_interpreted': len(parallel.FUNCS),
         'abstract_calls': int(sum(parallel.FUNCS.values())),
         'most_called': sorted(parallel.FUNCS.items(), key=lambda kv: -kv[1])[:12],
+        'functions': sorted(k.replace('pytorch_wavelets.', '') for k in parallel.FUNCS),
         'rule': 'the repository source is parsed and interpreted abstractly on every run; nothing is imported or executed'})
     cov.setdefault('known_findings_matched', sorted(listed))
     cov.setdefault('notes', [n.get('msg') for n in notes[:20]])
